@@ -6,7 +6,7 @@ Driver handler for the `genesis` stream (C20): header sorting, CheckGenesis verd
 namespace ZV.Driver
 open ZV ZV.Genesis
 
-def parseHeader (s : String) : Option Header := do
+def parseHeaderGn (s : String) : Option Header := do
   let b ← ofHex s
   if b.length ≠ 60 then none
   else pure ⟨b.take 20, beVal ((b.drop 20).take 8), b.drop 28⟩
@@ -27,13 +27,13 @@ def parseBal : Nat → List String → Option (List (Bytes × Int) × List Strin
     pure ((z, a) :: l, rest')
   | _, _ => none
 
-def parseBlocks : Nat → List String → Option (List Block × List String)
+def parseBlocksGn : Nat → List String → Option (List Block × List String)
   | 0, rest => some ([], rest)
   | n + 1, addr :: nb :: rest => do
     let addr ← ofHex addr
     let nb ← nb.toNat?
     let (bal, rest) ← parseBal nb rest
-    let (l, rest') ← parseBlocks n rest
+    let (l, rest') ← parseBlocksGn n rest
     pure (⟨addr, bal⟩ :: l, rest')
   | _, _ => none
 
@@ -77,7 +77,7 @@ def parseConfig (toks : List String) : Option Config := do
   let [f0, f1, f2, f3, f4, f5] := flags.toList | none
   let f0 ← parseBit f0; let f1 ← parseBit f1; let f2 ← parseBit f2
   let f3 ← parseBit f3; let f4 ← parseBit f4; let f5 ← parseBit f5
-  let (blocks, rest) ← parseBlocks (← nb.toNat?) rest
+  let (blocks, rest) ← parseBlocksGn (← nb.toNat?) rest
   let "T" :: nt :: rest := rest | none
   let (tokens, rest) ← parseTokens (← nt.toNat?) rest
   let "P" :: np :: rest := rest | none
@@ -97,7 +97,7 @@ def showStartup : Startup → String
 
 def pureGenesis : List String → Option String
   | "gen-content" :: hs => do
-      let hs ← hs.mapM parseHeader
+      let hs ← hs.mapM parseHeaderGn
       pure (" ".intercalate ((newMomentumContent hs).map (fun h => toHex h.bytes)))
   | "gen-check" :: toks => do
       let c ← parseConfig toks
